@@ -179,6 +179,11 @@ func (pp *piecePool) qualify(text, src string) *piece {
 
 // specialStmts contain `;` inside string literals, quoted identifiers and comments.
 var specialStmts = []string{
+	// statements that END in a token whose scanner looks ahead (alone, the look-ahead meets the end of input; in a script,
+	// it sees the next statement): here-documents, tagged and not, strings, quoted names, numbers of every form, parameters, operators
+	"SELECT $t$plain$t$", "SELECT 1, $tag$ a;b $tag$", "SELECT $$x$$", "SELECT $a", "SELECT $1", "SELECT 'a'", "SELECT 'a'''", "SELECT \"q\"", "SELECT `q`", "SELECT 1.", "SELECT 1.5e3", "SELECT .5",
+	"SELECT 0x1F", "SELECT 0b1", "SELECT 1_000", "SELECT {p:UInt8}", "SELECT t.1", "SELECT db.02_t", "SELECT x'41'", "SELECT @@v", "SELECT a::Int8", "SELECT [1,2,3]::Array(UInt8)", "SELECT (1,'a')::Tuple(UInt8, String)",
+	"SELECT 1 -- tail", "SELECT 1 /* tail */", "SELECT 1 # tail", "SELECT é", "SELECT 'é'", "SYSTEM SYNC REPLICA t STRICT", "SYSTEM FLUSH LOGS", "SHOW TABLES", "SELECT 1 FORMAT Null", "SELECT 1 INTO OUTFILE 'f'",
 	"SELECT 'a;b'",
 	"SELECT ';'",
 	"SELECT ';;', ';'",
